@@ -20,6 +20,8 @@ from checks.c02 import fields
 def split_res(line):
     """'ok <n> <tokens...>' / 'ok <n>' / 'err' / other"""
     parts = line.split(" ")
+    if parts and parts[-1].startswith("#"):          # "#cow=b<n>o<m>": informational note of the harness, not part of the value
+        parts = parts[:-1]
     if parts[0] == "ok":
         return "ok", int(parts[1]), " ".join(parts[2:])
     return parts[0], None, ""
